@@ -151,6 +151,27 @@ def _arm_effects(body: list[ast.stmt], filt: str) -> list[tuple]:
     return eff
 
 
+def _result_name(fn: ast.FunctionDef) -> str:
+    """The local a filter builder accumulates into and returns (by role: the name in the last return)."""
+    rets = [n for n in ast.walk(fn) if isinstance(n, ast.Return) and n.value is not None]
+    if not rets:
+        raise AnalysisError(f"{fn.name}: no return")
+    nm = [x.id for x in ast.walk(rets[-1].value) if isinstance(x, ast.Name)]
+    if not nm:
+        raise AnalysisError(f"{fn.name}: the return value names no local")
+    return nm[0]
+
+
+def _subst(c, a: str, b: str):
+    if isinstance(c, tuple):
+        if c == ("name", a):
+            return ("name", b)
+        return tuple(_subst(x, a, b) for x in c)
+    if isinstance(c, list):
+        return [_subst(x, a, b) for x in c]
+    return c
+
+
 def _arms(fn: ast.FunctionDef, var: str):
     chain = next((s for s in fn.body if isinstance(s, ast.If) and var in unparse(s.test) and "ramp" in unparse(s.test)), None)
     if chain is None:
@@ -186,22 +207,23 @@ def run(check, repo: Repo) -> None:
     check.assume("the installed scikit-image source is the reference the module claims to port; it is parsed, never imported")
 
     # ---- R1 filter table ---------------------------------------------------------------------------------
+    t_res, r_res = _result_name(gff), _result_name(rff)
     t_arms, t_else = _arms(gff, "filter_name")
     r_arms, _ = _arms(rff, "filter_name")
     check.decide(set(t_arms) == set(r_arms), "C07-R1", "filter names accepted = the reference's filter_types", f"{sorted(map(str, t_arms))}", mod.line(gff),
                  fail_detail=f"torch accepts {sorted(map(str, t_arms))}, the reference {sorted(map(str, r_arms))}")
     check.floor("filter arms", len(t_arms), 6)
     for name in sorted(set(t_arms) & set(r_arms), key=str):
-        te = _arm_effects(t_arms[name], "fourier_filter")
-        re_ = _arm_effects(r_arms[name], "fourier_filter")
-        te_n = _normalise_effects(te)
-        re_n = _normalise_effects(re_)
+        te = _arm_effects(t_arms[name], t_res)
+        re_ = _arm_effects(r_arms[name], r_res)
+        te_n = _subst(_normalise_effects(te), t_res, "$filter")
+        re_n = _subst(_normalise_effects(re_), r_res, "$filter")
         ok = te_n == re_n
         check.decide(ok, "C07-R1", f"get_fourier_filter_torch[{name}] conforms to the reference arm", "", mod.line(t_arms[name][0]),
                      fail_detail=f"filter '{name}': torch arm ≙ {te_n}\n        reference ≙ {re_n}\n        (numpy→torch table: linspace(…, endpoint=False) ≠ "
                                  f"torch.linspace(…); np.hamming/np.hanning = *_window(periodic=False))")
     # base ramp
-    def base(fn):
+    def base(fn, res):
         env = {}
         eff = []
         for st in fn.body:
@@ -213,12 +235,21 @@ def run(check, repo: Repo) -> None:
                 continue
             if isinstance(st, ast.Assign) and isinstance(st.targets[0], ast.Name):
                 env[st.targets[0].id] = _simplify(canon(st.value, env))
-                if st.targets[0].id == "fourier_filter":
-                    eff.append(("filter", env["fourier_filter"]))
+                if st.targets[0].id == res:
+                    eff.append(("filter", env[res]))
             elif isinstance(st, ast.Assign) and isinstance(st.targets[0], ast.Subscript):
                 eff.append(("set", canon(st.targets[0], {}), _simplify(canon(st.value, env))))
+        eff = _subst(eff, res, "$filter")
+        # scratch arrays written through subscripts: named by order of first store, not by spelling
+        stores = []
+        for st in fn.body:
+            if isinstance(st, ast.Assign) and isinstance(st.targets[0], ast.Subscript) and isinstance(st.targets[0].value, ast.Name) \
+                    and st.targets[0].value.id not in stores and st.targets[0].value.id != res:
+                stores.append(st.targets[0].value.id)
+        for i, nm in enumerate(stores):
+            eff = _subst(eff, nm, f"$scratch{i}")
         return eff
-    tb, rb = base(gff), base(rff)
+    tb, rb = base(gff, t_res), base(rff, r_res)
     check.decide(_strip_casts(tb) == _strip_casts(rb), "C07-R1", "get_fourier_filter_torch: the base ramp (Kak–Slaney eq. 61) is built as in the reference", "", mod.line(gff),
                  fail_detail=f"torch ≙ {_strip_casts(tb)}\n        reference ≙ {_strip_casts(rb)}")
     ev = [n for n in gff.body if isinstance(n, ast.If) and "size % 2" in unparse(n.test) and any(isinstance(x, ast.Raise) for x in n.body)]
